@@ -34,6 +34,7 @@ def run(an: Analysis, rep):
     from .common import local_memo_rule
     rep.run(local_memo_rule, an, rep, "R13.M", ["from_code", "to_code"])
     rep.run(r135, an, rep)
+    rep.run(r136, an, rep)
     from .common import SharedRules
     from . import c02
     rep.run(c02.jump_rules, an, SharedRules(rep, "R13.J", "decoded jump targets are the offsets CPython jumps to (shared with C02's R02.3/R02.5): blocks start exactly there"), False)
@@ -44,6 +45,85 @@ def run(an: Analysis, rep):
     rep.stats.update(an.stats([an.interp("from_code")[0]]))
     rep.assumptions += ["compiler output never jumps into the middle of an EXTENDED_ARG sequence (CPython's assembler targets the first unit)"]
 
+
+def r136(an: Analysis, rep, rule="R13.6"):
+    """A jump whose target is not the first code unit of a decoded instruction (it lands behind an EXTENDED_ARG prefix, or past the last
+    instruction - CPython executes the former) starts no block: the statements between the decoding loop and the block-building loop are
+    folded over witness (instruction offsets, jump targets) pairs and must raise exactly for such targets."""
+    from sa.feval import BlockOutcome, FevalError, ObjEval
+    rep.rule(rule, "a jump target that is not the start of a decoded instruction makes from_code raise", 1)
+    it, _ = an.interp("from_code")
+    pf = find_parser(an)
+    cons = None
+    for f in an.closure("from_code"):
+        for n in ast.walk(f.node):
+            if isinstance(n, ast.For) and isinstance(n.iter, ast.Call) and pf.qual in it.callees.get(id(n.iter), ()):
+                cons = (f, n)
+    if cons is None:
+        raise AnalysisError("decoder main loop not found")
+    f, loop1 = cons
+    adds = [n for n in ast.walk(loop1) if isinstance(n, ast.Call) and isinstance(n.func, ast.Attribute) and n.func.attr == "add"
+            and isinstance(n.func.value, ast.Name) and n.args and isinstance(n.args[0], ast.Attribute) and n.args[0].attr == "target"]
+    if len(adds) != 1:
+        raise AnalysisError(f"{f.qual}: jump-target set not recognised")
+    T = adds[0].func.value.id
+    from .c02 import parser_offset_positions
+    roles, _y = parser_offset_positions(pf)
+    first_pos = roles.get("first")
+    tn = [t.id if isinstance(t, ast.Name) else None for t in (loop1.target.elts if isinstance(loop1.target, ast.Tuple) else [])]
+    if first_pos is None or first_pos >= len(tn) or tn[first_pos] is None:
+        raise AnalysisError(f"{f.qual}: the loop variable holding an instruction's first offset is not recognised")
+    off = tn[first_pos]
+    # the record of decoded instructions: X.append((..., off, ...))
+    recs = [c for c in ast.walk(loop1) if isinstance(c, ast.Call) and isinstance(c.func, ast.Attribute) and c.func.attr == "append" and isinstance(c.func.value, ast.Name)
+            and len(c.args) == 1 and isinstance(c.args[0], ast.Tuple) and any(isinstance(e, ast.Name) and e.id == off for e in c.args[0].elts)]
+    if len(recs) != 1:
+        raise AnalysisError(f"{f.qual}: the list of (offset, instruction) records is not recognised")
+    R = recs[0].func.value.id
+    opos = [i for i, e in enumerate(recs[0].args[0].elts) if isinstance(e, ast.Name) and e.id == off][0]
+    width = len(recs[0].args[0].elts)
+    body = f.node.body
+    i1 = next((i for i, st in enumerate(body) if st is loop1), None)
+    if i1 is None:
+        raise AnalysisError(f"{f.qual}: decoding loop is not a top-level statement")
+    between = []
+    for st in body[i1 + 1:]:
+        if isinstance(st, (ast.For, ast.While)) and not any(isinstance(x, ast.Raise) for x in ast.walk(st)):
+            break
+        between.append(st)
+    a = f.node.args
+    bparam = f.params[0]
+
+    def run(offsets, targets, size):
+        ev = ObjEval(lambda name: None, extra={})
+        ev.module_assigns = f.module.assigns
+        env = {T: set(targets), R: [tuple(o if k == opos else f"ins@{o}" for k in range(width)) for o in offsets], bparam: bytes(size)}
+        try:
+            ev.exec(between, env)
+        except BlockOutcome:
+            return True
+        return False
+    # instructions at 0, 2, 4 (two code units: 4..8), 8; code is 10 bytes long
+    offs, size = [0, 2, 4, 8], 10
+    W = [({0}, False), ({0, 4}, False), ({0, 8, 2}, False), ({0, 6}, True), ({0, 10}, True), ({0, 4, 6}, True)]
+    bad = []
+    try:
+        for targets, want in W:
+            got = run(offs, targets, size)
+            if got != want:
+                bad.append((sorted(targets), want, got))
+        empty_ok = not run([], {0}, 0)
+    except (FevalError, KeyError, TypeError, IndexError, ValueError) as ex:
+        raise AnalysisError(f"{f.qual}: the statements between the decoding loop and the block loop are not evaluable ({type(ex).__name__}: {ex})")
+    if not empty_ok:
+        bad.append(([0], False, True))
+    missed = [b for b in bad if b[1]]
+    rep.add(rule, f"{f.qual}::targets inside an instruction or past the end are rejected", not bad, loc(f.module, between[0] if between else loop1),
+            f"instructions at {offs} (the one at 4 has an EXTENDED_ARG prefix), code of {size} bytes: targets 6 and 10 raise, targets at instruction starts (and empty code) do not" if not bad else
+            (f"with instructions at {offs} (the one at 4 has an EXTENDED_ARG prefix, its opcode sits at 6) a jump to {[t for t in missed[0][0] if t not in offs]} is accepted: CPython executes "
+             f"such a jump (hand-written bytecode; with a zero prefix it behaves like the jump to 4), but no block starts there - the jump gets the index of a block that does not exist or of "
+             f"another block, and to_code() of the returned data raises KeyError or jumps elsewhere" if missed else
+             f"jump targets {bad[0][0]} at instruction starts make from_code raise"))
 
 def block_rules(an: Analysis, rep):
     it, _ = an.interp("from_code")
